@@ -184,4 +184,61 @@ def k2(ctx, kr):
     kr.bounds = '2 sources, every combination of lexical outcomes and iteration orders'
     kr.exhaustive = True
 
-KERNELS = [k1, k2, k3]
+
+# ---------------------------------------------------------------------------------------------- K2b echo(): Ok <=> every file parses
+@kernel('K2b cli.echo_contract')
+def k2b(ctx, kr):
+    P = ctx.program(CR)
+    key = P.find_fn('ironplcc', 'cli::echo')
+    ev = []; st = {}
+    NS = 2
+    def st_create(M, fr, callee, a):
+        srcs = VecV([Agg('()', [Agg('FileId', [Str('f%d' % i)]), Agg('Source', [Agg('FileId', [Str('f%d' % i)]), Str(str(i)), none()])]) for i in range(NS)])
+        return ok(Agg('project::FileBackedProject', [srcs]))
+    def st_parse(M, fr, callee, a):
+        i = int(M.deref(a[0]).conc())
+        if M.branch(st['parse_ok'][i]): return ok(Agg('Library', [VecV([])]))
+        return err(diag('P0002'))
+    def st_write(M, fr, callee, a):
+        if M.branch(st['render_ok']): return ok(Str('text'))
+        return err(VecV([diag('P9999')]))
+    def st_handle(M, fr, callee, a): ev.append(('diagnostics', len(M.deref(a[0]).items))); return UNIT
+    def st_print(M, fr, callee, a): ev.append(('print',)); return UNIT
+    M = Machine(P, stubs={r'^cli::create_project$': st_create, r'^ironplc_parser::parse_program$': st_parse, r'^ironplc_plc2plc::write_to_string$': st_write,
+                          r'^cli::handle_diagnostics$': st_handle, r'^std::io::_print$': st_print})
+    def entry(M):
+        ev.clear(); st['parse_ok'] = [M.fresh_bool('parse_ok') for _ in range(NS)]; st['render_ok'] = M.fresh_bool('render_ok')
+        return M.call_fn(key, [Ref(Cell(VecV([Str('a.st')]))), False])
+    def on_path(M, pr):
+        kr.paths += 1
+        if pr.inconclusive: kr.inconc(pr.inconclusive); return
+        kr.nontrivial += 1
+        s = z3.Solver(); s.add(*pr.pc); s.check(); m = s.model(); kr.queries += 1
+        pok = [z3.is_true(m.eval(b, True)) for b in st['parse_ok']]; rok = z3.is_true(m.eval(st['render_ok'], True))
+        wit = {'parse_ok': pok, 'render_ok': rok}
+        if pr.panic: _add(kr, 'C13/K2b/panic', 'cli::echo panics: ' + pr.panic.msg[:60], wit, None); return
+        is_ok = pr.result.disc == 0; ndiag = sum(e[1] for e in ev if e[0] == 'diagnostics')
+        if is_ok and not all(pok):
+            _add(kr, 'C13/K2b/parse-error-forgotten', 'echo returns Ok (exit 0) although a file does not parse (parse outcomes %s)' % pok, wit, ('cli_echo', (['good' if p_ else 'bad_syntax' for p_ in pok],)))
+        if not is_ok and ndiag == 0: _add(kr, 'C13/K2b/error-silent', 'echo fails without a diagnostic', wit, None)
+        if not is_ok and all(pok) and rok: _add(kr, 'C13/K2b/spurious-failure', 'echo fails although every file parses and renders', wit, ('cli_echo', (['good'] * NS,)))
+        elif is_ok and all(pok) and len(kr.validate) < 6: kr.validate.append(('cli_echo', (['good'] * NS,)))
+        if len(kr.samples) < 3: kr.samples.append({'outcomes': wit, 'result': 'Ok' if is_ok else 'Err', 'diagnostics': ndiag})
+    M.explore(entry, on_path)
+    kr.queries += M.stats['smt']
+    kr.functions = fn_paths(P, M.encoded); kr.models = sorted(M.models_used)
+    kr.stubs = ['create_project -> project with 2 sources', 'parse_program -> Ok / Err per file', 'write_to_string -> Ok / Err', 'handle_diagnostics / _print recorded', 'HashMap iteration order nondeterministic']
+    kr.bounds = '2 sources, every combination of parse outcomes, render outcome and iteration order'
+    kr.exhaustive = True
+
+@replay_factory('cli_echo')
+def _replay_cli_echo(kinds):
+    BAD = 'PROGRAM q%d\nVAR\n  x : INT\nEND_VAR\nEND_PROGRAM\n'
+    def rp(ctx):
+        files = {('f%d.st' % i): ({'good': GOOD, 'bad_syntax': BAD}[k] % i) for i, k in enumerate(kinds)}
+        rc, out, err_ = ctx.ironplcc(['echo'], files)
+        expect_ok = all(k == 'good' for k in kinds)
+        return (rc == 0) != expect_ok, {'kinds': kinds, 'exit': rc, 'stderr': err_[:120]}
+    return rp
+
+KERNELS = [k1, k2, k2b, k3]
